@@ -432,7 +432,14 @@ Definition sfuel (s : st) : nat := length (buf s) + length (data (rd s)) + 3.
 Definition b_num (c : cfg) (s : st) : res :=
   match b_scan (sfuel s) c isNum (rc s - 1) (rc s - 1) s with
   | BErr k => Err k
-  | BEof start pos s' => Ok (slice start pos (buf s')) 0%N (consume_to s' pos)
+  | BEof start pos s' =>
+      (* since F03-7: a refill that brought nothing because the reader FAILED (not EOF) is that error
+         (if !z.done { z.checkErr() }); only the end of the input ends the number *)
+      if done s' then Ok (slice start pos (buf s')) 0%N (consume_to s' pos)
+      else match perr s' with
+           | KNone => Ok (slice start pos (buf s')) 0%N (consume_to s' pos)
+           | e => Err e
+           end
   | BTok t start pos s' => Ok (slice start (pos - 1) (buf s')) t (consume_to s' pos)
   end.
 
